@@ -122,6 +122,8 @@ type driver struct {
 	storm     int
 	forged    int
 	nonDHCP   int
+	ackFile   []FileRec // lease file as it was when the last DHCPACK of the step was written to the connection
+	ackSeen   bool
 	ages      int       // number of "age" actions (6 s each) since the behaviour started
 	altDNS    bool      // the handler currently runs with the changed configuration (DhcpAltDNS)
 	scribbleP float64   // probability that the shared buffer is scribbled over after a step
@@ -152,11 +154,14 @@ func (d *driver) newSession() error {
 		go old.Close()
 	}
 	// deadlines at their maximum: the session's own minute ticker never ages anything during a run
-	s, conn, err := vh.NewSession(d.nw.Universe(), 30, 60, 24*60)
+	rec := vh.NewRecConn()
+	hc := &vh.HookConn{RecConn: rec, Before: func(b []byte) error { d.onWrite(b); return nil }}
+	s, err := packet.Config{Conn: hc, NICInfo: d.nw.Universe().NICInfo(), ProbeDeadline: 30 * vh.Unit,
+		OfflineDeadline: 60 * vh.Unit, PurgeDeadline: 24 * 60 * vh.Unit}.NewSession("")
 	if err != nil {
 		return err
 	}
-	d.s, d.conn = s, conn
+	d.s, d.conn = s, rec
 	return nil
 }
 
@@ -166,6 +171,18 @@ func (d *driver) dns() netip.Addr {
 		return vh.DhcpAltDNS
 	}
 	return d.nw.DNS
+}
+
+// onWrite runs when the handler hands a frame to the connection: if it is a DHCPACK, the lease file is read at that
+// very moment (an acknowledged binding must already be durable when the ACK leaves).
+func (d *driver) onWrite(b []byte) {
+	m, err := vh.DecodeDHCPFrame(b)
+	if err != nil || m == nil || m.Op != 2 || m.Type != 5 {
+		return
+	}
+	recs, _ := d.decodeFile()
+	d.ackFile = append([]FileRec{}, recs...)
+	d.ackSeen = true
 }
 
 func (d *driver) newHandler() (err error) {
@@ -252,6 +269,11 @@ func (d *driver) conc(v int) netip.Addr {
 
 // message builds one client message. sid: us | other | none. src: abstract source address.
 func (d *driver) message(mt uint8, k, m string, xid uint32, sid string, ropt, ci, src int, prl string, name string) []byte {
+	return d.messageX(mt, k, m, xid, sid, ropt, ci, src, prl, name, vh.DhcpNoA, false)
+}
+
+// messageX: gi = relay agent address (giaddr), bflag = BOOTP broadcast flag.
+func (d *driver) messageX(mt uint8, k, m string, xid uint32, sid string, ropt, ci, src int, prl string, name string, gi int, bflag bool) []byte {
 	mac := vh.DhcpMAC(m)
 	opts := []vh.DHCP4Opt{{Code: 53, Data: []byte{mt}}}
 	kn, _ := strconv.Atoi(strings.TrimPrefix(k, "c"))
@@ -271,7 +293,19 @@ func (d *driver) message(mt uint8, k, m string, xid uint32, sid string, ropt, ci
 		opts = append(opts, vh.DHCP4Opt{Code: 12, Data: []byte(name)})
 	}
 	opts = append(opts, prlOpt(prl)...)
-	msg := vh.DHCP4(1, xid, 0, d.conc(ci), netip.Addr{}, netip.Addr{}, netip.Addr{}, mac, opts)
+	flags := uint16(0)
+	if bflag {
+		flags = 0x8000
+	}
+	giaddr := netip.Addr{}
+	if gi != vh.DhcpNoA {
+		giaddr = d.conc(gi)
+	}
+	msg := vh.DHCP4(1, xid, flags, d.conc(ci), netip.Addr{}, netip.Addr{}, giaddr, mac, opts)
+	if gi != vh.DhcpNoA {
+		msg[3] = 1 // hops
+		msg[9] = 3 // secs
+	}
 	sip, dip, dmac := netip.IPv4Unspecified(), netip.AddrFrom4([4]byte{255, 255, 255, 255}), vh.Bcast
 	if src != vh.DhcpNoA {
 		sip = d.conc(src)
@@ -537,6 +571,19 @@ func (d *driver) snapshot(rec map[string]interface{}) {
 	rec["next"] = d.cursors()
 	rec["hosts"], rec["ment"] = d.session()
 	recs, st := d.fileRecs()
+	if d.ackSeen {
+		// judge durability on the file as it was when the ACK was handed to the connection
+		if len(d.ackFile) != len(recs) {
+			recs = d.ackFile
+		} else {
+			for i := range recs {
+				if recs[i].K != d.ackFile[i].K || recs[i].IP != d.ackFile[i].IP || recs[i].MAC != d.ackFile[i].MAC || !recs[i].exp.Equal(d.ackFile[i].exp) {
+					recs = d.ackFile
+					break
+				}
+			}
+		}
+	}
 	// currency of the persisted expiry: false iff the handler holds the same allocated binding with another expiry
 	out := make([]FileRec, len(recs))
 	copy(out, recs)
@@ -598,11 +645,12 @@ func (d *driver) step(a action) (rec map[string]interface{}) {
 		}
 	}()
 	perr := ""
+	d.ackSeen = false
 	switch a.s("a") {
 	case "discover":
 		req := d.resolve(a.s("reqs"), a.i("req"))
 		rec["req"] = req
-		perr = d.process(d.message(1, a.s("k"), a.s("m"), vh.DhcpXID(a.s("xid")), "none", req, vh.DhcpNoA, vh.DhcpNoA, a.s("prl"), a.s("name")))
+		perr = d.process(d.messageX(1, a.s("k"), a.s("m"), vh.DhcpXID(a.s("xid")), "none", req, vh.DhcpNoA, vh.DhcpNoA, a.s("prl"), a.s("name"), a.i("gi"), a.b("bf")))
 	case "request":
 		ropt, ci := d.resolve(a.s("ropts"), a.i("ropt")), d.resolve(a.s("cis"), a.i("ci"))
 		src := vh.DhcpNoA
@@ -613,7 +661,7 @@ func (d *driver) step(a action) (rec map[string]interface{}) {
 			src = ci
 		}
 		rec["ropt"], rec["ci"], rec["src"] = ropt, ci, src
-		perr = d.process(d.message(3, a.s("k"), a.s("m"), vh.DhcpXID(a.s("xid")), a.s("sid"), ropt, ci, src, a.s("prl"), a.s("name")))
+		perr = d.process(d.messageX(3, a.s("k"), a.s("m"), vh.DhcpXID(a.s("xid")), a.s("sid"), ropt, ci, src, a.s("prl"), a.s("name"), a.i("gi"), a.b("bf")))
 	case "decline":
 		ropt := d.resolve(a.s("ropts"), a.i("ropt"))
 		rec["ropt"] = ropt
